@@ -15,6 +15,7 @@ fn main() {
         "c10_first_byte" => profirust::fdl::__verif_native_telegram::c10_first_byte(&rest, seed),
         "c09_roundtrip" => profirust::fdl::__verif_native_telegram::c09_roundtrip(&rest, seed),
         "c02_las" => profirust::fdl::__verif_native_token_ring::c02_las(&rest, seed),
+        "c03_wd" => profirust::fdl::__verif_native_parameters::c03_wd(&rest, seed),
         "c17_iter" => profirust::dp::__verif_native_diagnostics::c17_iter(&rest, seed),
         "c20_write" => gsd_oracles::c20_write(&rest, seed),
         "c20_builder" => gsd_oracles::c20_builder(&rest, seed),
